@@ -183,7 +183,7 @@ theorem step_stmt {env : Env} {σ : BState} {bl : List Block} (hx : Ext σ bl) {
     rw [← ht]
     have hklt : k < (σ.blk b).stmts.length := (List.getElem?_eq_some_iff.mp hk).1
     rw [List.getElem?_append_left hklt]; exact hk
-  simp only [step, blkL_some hlen, hk']
+  simp only [step, stepB, blkL_some hlen, hk']
 
 /-- the unconditional jump at the end of a closed block -/
 theorem step_goto {env : Env} {σ : BState} {bl : List Block} (hx : Ext σ bl) {b t : Nat} (hb : b < σ.len)
@@ -191,7 +191,7 @@ theorem step_goto {env : Env} {σ : BState} {bl : List Block} (hx : Ext σ bl) {
     step env bl ⟨b, (σ.blk b).stmts.length, s, r⟩ = some ⟨t, 0, s, r⟩ := by
   have hlen : b < bl.length := Nat.lt_of_lt_of_le hb hx.len
   obtain ⟨c1, c2, _⟩ := hx.closed b hb (by rw [hs]; simp)
-  simp only [step, blkL_some hlen, c1, c2, hs, List.getElem?_eq_none (Nat.le_refl _)]
+  simp only [step, stepB, blkL_some hlen, c1, c2, hs, List.getElem?_eq_none (Nat.le_refl _)]
 
 /-- the conditional jump at the end of a closed block -/
 theorem step_branch {env : Env} {σ : BState} {bl : List Block} (hx : Ext σ bl) {b t f : Nat} {p : Expr}
@@ -200,6 +200,6 @@ theorem step_branch {env : Env} {σ : BState} {bl : List Block} (hx : Ext σ bl)
       some ⟨if (eval env p s).1.truthy then t else f, 0, (eval env p s).2, r⟩ := by
   have hlen : b < bl.length := Nat.lt_of_lt_of_le hb hx.len
   obtain ⟨c1, c2, c3⟩ := hx.closed b hb (by rw [hs]; simp)
-  simp only [step, blkL_some hlen, c1, c2, c3, hs, hp, List.getElem?_eq_none (Nat.le_refl _)]
+  simp only [step, stepB, blkL_some hlen, c1, c2, c3, hs, hp, List.getElem?_eq_none (Nat.le_refl _)]
 
 end GuppyVerif.Builder
